@@ -477,16 +477,25 @@ impl Node {
     }
 
     async fn drain_resequence_buffer(&mut self) -> Result<(), RebirthReason> {
+        let mut released = false;
         loop {
             match self.resequencer.drain() {
                 resequencer::DrainResult::Message(message) => {
+                    released = true;
                     self.process_in_sequence_message(message)?
                 }
                 resequencer::DrainResult::Empty => {
                     self.cancel_reorder_timeout();
                     break;
                 }
-                resequencer::DrainResult::SequenceMissing => break,
+                resequencer::DrainResult::SequenceMissing => {
+                    if released {
+                        // The gap the timeout was started for has been filled, what is missing now is a different gap
+                        self.cancel_reorder_timeout();
+                        self.start_reorder_timeout();
+                    }
+                    break;
+                }
             }
         }
         Ok(())
